@@ -27,5 +27,8 @@ theorem verdict : (classify Generated.factsC26).Sound (Holds (cfgOf Generated.fa
 #print axioms plainCease_leaks
 #print axioms recoverFirst_balanced
 #print axioms holds_fixed
+#print axioms reader_creates_swamp_witness
+#print axioms negative_from_witness
+#print axioms unstorable_key_witness
 
 end Hv.C26
